@@ -6,9 +6,11 @@
    by letting an arbitrary task run one atomic segment at a time — a superset of the schedules of asyncio's
    ready queue (C12_schedules_reachable).  [c_pinned c = false] selects the repaired receive/__anext__
    (fixes/c12-task-done.patch, F10); the pinned variant is refuted below. *)
-From BP Require Import Base.Prelude Model.Channel.
+From BP Require Import Base.Prelude Model.Channel Model.C12X.
 From BP Require Import Proofs.ChannelP1 Proofs.ChannelP2 Proofs.ChannelP3 Proofs.ChannelP4 Proofs.ChannelP5
                        Proofs.ChannelP6 Proofs.ChannelP7 Proofs.ChannelP8.
+From BP Require Import Proofs.ChannelX1 Proofs.ChannelX2 Proofs.ChannelX3 Proofs.ChannelX4 Proofs.ChannelX5 Proofs.ChannelX6 Proofs.ChannelX7.
+From Coq Require Import Sorted.
 Local Open Scope nat_scope.
 
 (* every run of the event loop (one ready handle at a time, each run to its next suspension point) is in Reach *)
@@ -137,6 +139,248 @@ Theorem C12_cancel_strands_refuted : exists c s x,
 Proof. exact cancel_strands_refuted. Qed.
 Print Assumptions C12_cancel_strands_refuted.
 
+(* ================================================================ extension: capacity, termination, done(), per-receiver order
+   (definitions: Model/C12X.v; proofs: Proofs/ChannelX1..X5.v).  All for every configuration and every reachable state. *)
+
+(* (1) capacity.  With buffer_limit n > 0 the queue never holds more than n entries — items AND flush sentinels —
+   pinned or repaired code, cancellation included; [within_capacity] is the boolean form (n = 0: unbounded) *)
+Theorem C12_capacity : forall c s, Reach c s ->
+  (c_maxsize c > 0 -> length (q s) <= c_maxsize c) /\ within_capacity s = true.
+Proof. exact capacity. Qed.
+Print Assumptions C12_capacity.
+
+(* ... and with buffer_limit 0 there is no bound: every queue length is reached *)
+Theorem C12_capacity_unbounded : forall n, exists c s, c_maxsize c = 0 /\ Reach c s /\ length (q s) = n.
+Proof. exact capacity_unbounded. Qed.
+Print Assumptions C12_capacity_unbounded.
+
+(* close() never fails, on ANY state (any number of blocked receivers, queue full or not): it sets _closed, spawns the
+   _flush_queue task and goes on; it touches neither the queue nor the deques nor the counters.  There is no put_nowait in
+   it, so nothing can report QueueFull (the model's outcomes have no such case: put_nowait is only reached through put()'s
+   full-check) *)
+Theorem C12_close_never_fails : forall s t T p, nth_error (tasks s) t = Some T -> st T = Ready -> mc T = false ->
+  prog T = IClose :: p ->
+  exists s', step s t = Some s' /\ closed s' = true /\ q s' = q s /\ getters s' = getters s /\ putters s' = putters s /\
+             W s' = W s /\ unfin s' = unfin s /\ flushed s' = flushed s /\
+             tasks s' = upd (tasks s) t (set_prog T p) ++ [flush_task] /\
+             nth_error (tasks s') t = Some (set_prog T p) /\ outcome_of s' t = None.
+Proof. exact close_never_fails. Qed.
+Print Assumptions C12_close_never_fails.
+
+(* _flush_queue up to its first put never fails either: the first call commits to max(0, W - qsize) sentinels *)
+Theorem C12_flush_body : forall s t T p, nth_error (tasks s) t = Some T -> st T = Ready -> mc T = false ->
+  prog T = IFlush :: p ->
+  exists s' T', step s t = Some s' /\ flushed s' = true /\ q s' = q s /\ W s' = W s /\ nth_error (tasks s') t = Some T' /\
+                st T' = Ready /\
+                prog T' = (if flushed s then [] else repeat IPutFlush (W s - length (q s))) ++ p.
+Proof. exact flush_body. Qed.
+Print Assumptions C12_flush_body.
+
+(* the sentinel put on a full queue: the _flush_queue task parks in _putters (BlkPut) and the queue is untouched;
+   otherwise the sentinel goes to the back of the queue *)
+Theorem C12_flush_put : forall s t T p, nth_error (tasks s) t = Some T -> (st T = Ready \/ st T = WokePut) -> mc T = false ->
+  prog T = IPutFlush :: p ->
+  exists s' T', step s t = Some s' /\ nth_error (tasks s') t = Some T' /\
+    if full s then q s' = q s /\ st T' = BlkPut /\ prog T' = IPutFlush :: p /\ putters s' = putters s ++ [t]
+    else q s' = q s ++ [Flush] /\ st T' = Ready /\ prog T' = p /\ sent s' = sent s.
+Proof. exact flush_put. Qed.
+Print Assumptions C12_flush_put.
+
+(* (2) termination.  [measure] (Model/C12X.v: per task 1 if it can run + the weight of its remaining operations, 2 per queue
+   entry, and the sentinels _flush_queue may still commit to) strictly decreases with EVERY step of EVERY task: a receive
+   loop cannot spin (each round consumes a queue entry, blocks, or ends), a woken getter / putter that finds the queue
+   empty / full again is paid for by the put / get that woke it *)
+Theorem C12_measure_decreases : forall c s t s', Reach c s -> step s t = Some s' -> measure s' < measure s.
+Proof. exact measure_decreases. Qed.
+Print Assumptions C12_measure_decreases.
+
+(* every run from a reachable state is finite: at most [measure s] <= [bound c] = measure (init c) segments *)
+Theorem C12_termination : forall c s sch s', Reach c s -> exec s sch = Some s' ->
+  length sch + measure s' <= measure s /\ measure s <= bound c /\ length sch <= bound c.
+Proof. exact run_bounded. Qed.
+Print Assumptions C12_termination.
+
+Theorem C12_no_infinite_run : forall c s (f : nat -> state), Reach c s -> f 0 = s ->
+  (forall i, exists t, step (f i) t = Some (f (S i))) -> False.
+Proof. exact no_infinite_run. Qed.
+Print Assumptions C12_no_infinite_run.
+
+(* nothing can move exactly in the quiescent states, and a state that is not quiescent can move *)
+Theorem C12_stuck_iff_quiescent : forall c s, Reach c s -> (stuck s <-> quiescent s = true).
+Proof. exact stuck_iff_quiescent. Qed.
+Print Assumptions C12_stuck_iff_quiescent.
+
+Theorem C12_progress : forall c s, Reach c s -> quiescent s = false -> exists t s', step s t = Some s'.
+Proof. exact progress. Qed.
+Print Assumptions C12_progress.
+
+(* every maximal run reaches a quiescent state within [bound c] steps *)
+Theorem C12_maximal_run_quiescent : forall c s sch s', Reach c s -> exec s sch = Some s' -> stuck s' ->
+  quiescent s' = true /\ length sch <= bound c /\ Reach c s'.
+Proof. exact maximal_run_quiescent. Qed.
+Print Assumptions C12_maximal_run_quiescent.
+
+(* the same as a statement about schedulers: any rule that picks a task able to move whenever one exists has reached a
+   quiescent state after [bound c] segments *)
+Theorem C12_scheduler_terminates : forall c ch, (forall s, Reach c s -> quiescent s = false -> step s (ch s) <> None) ->
+  forall s, Reach c s -> quiescent (drive ch (bound c) s) = true /\ Reach c (drive ch (bound c) s).
+Proof. exact scheduler_terminates. Qed.
+Print Assumptions C12_scheduler_terminates.
+
+(* the event loop's own schedules (each entry runs one ready handle to its next suspension, >= 1 segment) are bounded too *)
+Theorem C12_event_loop_bounded : forall c fuel sch s s', Reach c s -> run_final fuel s sch = Some s' ->
+  length sch + measure s' <= measure s /\ length sch <= bound c.
+Proof. exact run_final_bounded. Qed.
+Print Assumptions C12_event_loop_bounded.
+
+(* no lost wake-up, closed or not, cancellation included: when nothing can run any more, a receiver is blocked only on an
+   empty queue, and a sender / the _flush_queue task only on a full one *)
+Theorem C12_no_lost_wakeup : forall c s, Reach c s -> quiescent s = true ->
+  (sumf (is_st BlkGet) (tasks s) > 0 -> q s = []) /\
+  (sumf (is_st BlkPut) (tasks s) > 0 -> full s = true).
+Proof. exact no_lost_wakeup. Qed.
+Print Assumptions C12_no_lost_wakeup.
+
+(* with the no-blocked-receiver theorem: once closed, every run that cannot be extended ends, after at most [bound c]
+   segments, with every task finished or blocked in put — every blocked or future receive / iteration terminates;
+   cancellation and timeouts included *)
+Theorem C12_receivers_terminate : forall c s sch s', Reach c s -> cfg_cancel_ok c = true -> closed s = true ->
+  exec s sch = Some s' -> stuck s' ->
+  length sch <= bound c /\ quiescent s' = true /\
+  forall T, In T (tasks s') -> (exists o, st T = Fin o) \/ st T = BlkPut.
+Proof. exact receivers_terminate. Qed.
+Print Assumptions C12_receivers_terminate.
+
+Theorem C12_receivers_terminate_nocancel : forall c s sch s', Reach c s -> cfg_nocancel c = true -> c_pinned c = false ->
+  closed s = true -> exec s sch = Some s' -> stuck s' ->
+  length sch <= bound c /\
+  forall t T, nth_error (tasks s') t = Some T ->
+    (exists o, st T = Fin o /\ (o = ORet \/ o = OClosed \/ o = ODone)) \/ st T = BlkPut.
+Proof. exact receivers_terminate_nocancel. Qed.
+Print Assumptions C12_receivers_terminate_nocancel.
+
+(* (3) done() = closed and qsize <= waiting receivers is NOT monotone, with or without cancellation.
+   One step, any configuration: only a cancelled getter leaving get() (W -= 1, nothing dequeued) or a put can end it *)
+Theorem C12_done_step_cases : forall c s t s' T, Reach c s -> done s = true -> step s t = Some s' ->
+  nth_error (tasks s) t = Some T ->
+  done s' = true \/ cancelled_in_get_b T = true \/ at_put T = true.
+Proof. exact done_step_cases. Qed.
+Print Assumptions C12_done_step_cases.
+
+(* the positive statement, any configuration: done() stays true for ever from a state in which, besides done(),
+   no send / send_from is past its closed-check with an item to put ([senders_idle]), the sentinels _flush_queue still
+   has to put fit under the waiting receivers ([sentinels_fit]: qsize + pending sentinels <= W) and no cancel() is still
+   to be issued or delivered ([no_cancel_pending]).  Each of the three conditions is needed: the three refutations below
+   fail exactly one of them each *)
+Theorem C12_done_stable : forall c s t s', Reach c s -> done_settled s = true -> step s t = Some s' ->
+  done_settled s' = true /\ done s' = true.
+Proof. exact done_settled_step. Qed.
+Print Assumptions C12_done_stable.
+
+Theorem C12_done_stable_run : forall c sch s s', Reach c s -> done_settled s = true -> exec s sch = Some s' ->
+  done_settled s' = true /\ done s' = true.
+Proof. exact done_settled_run. Qed.
+Print Assumptions C12_done_stable_run.
+
+(* the same with cancellations in flight, under the weaker [no_get_cancel]: no cancel() is still to be issued and no receiver
+   INSIDE get() carries an undelivered cancellation; cancellations pending on any other task (a sender, the closer, a task
+   about to start) are allowed.  [done_settled] is the special case without any pending cancellation *)
+Theorem C12_done_stable_cancel : forall c s t s', Reach c s -> done_settled_c s = true -> step s t = Some s' ->
+  done_settled_c s' = true /\ done s' = true.
+Proof. exact done_settled_c_step. Qed.
+Print Assumptions C12_done_stable_cancel.
+
+Theorem C12_done_stable_cancel_run : forall c sch s s', Reach c s -> done_settled_c s = true -> exec s sch = Some s' ->
+  done_settled_c s' = true /\ done s' = true.
+Proof. exact done_settled_c_run. Qed.
+Print Assumptions C12_done_stable_cancel_run.
+
+Theorem C12_done_settled_weaker : forall s, done_settled s = true -> done_settled_c s = true.
+Proof. exact settled_implies_c. Qed.
+Print Assumptions C12_done_settled_weaker.
+
+(* configurations for which done() IS monotone: no cancellation, unbounded buffer, no send_from (every send is one
+   atomic segment, so nobody is past its closed-check when close() runs) *)
+Theorem C12_done_stable_atomic : forall c s t s', Reach c s -> cfg_nocancel c = true -> cfg_atomic_send c = true ->
+  done s = true -> step s t = Some s' -> done s' = true.
+Proof. exact done_stable_atomic. Qed.
+Print Assumptions C12_done_stable_atomic.
+
+(* with cancellation: a receiver that was handed an item (WokeGet) and is cancelled before it runs leaves with
+   CancelledError; W drops, the item stays queued, done() goes back to false (repaired code) *)
+Theorem C12_done_stable_cancel_refuted : exists c s t T s',
+  c_pinned c = false /\ Reach c s /\ done s = true /\ senders_idle s = true /\ sentinels_fit s = true /\
+  nth_error (tasks s) t = Some T /\ st T = WokeGet /\ mc T = true /\
+  step s t = Some s' /\ outcome_of s' t = Some OCancelled /\ q s' = q s /\ W s' = W s - 1 /\ done s' = false.
+Proof. exact done_cancel_refuted. Qed.
+Print Assumptions C12_done_stable_cancel_refuted.
+
+(* WITHOUT cancellation (the statement "cfg_nocancel -> done() is stable" is false): bounded buffer, a sender blocked in
+   put() past its closed-check completes its put after done() became true — a real ready-queue schedule *)
+Theorem C12_done_stable_nocancel_refuted : exists c s t s',
+  cfg_nocancel c = true /\ c_pinned c = false /\ Reach c s /\ done s = true /\
+  sentinels_fit s = true /\ no_cancel_pending s = true /\ senders_idle s = false /\
+  step s t = Some s' /\ done s' = false /\ q s' = [Msg 0 1].
+Proof. exact done_nocancel_refuted. Qed.
+Print Assumptions C12_done_stable_nocancel_refuted.
+
+(* ... and with every sender idle: a surplus sentinel of _flush_queue (its receiver was served by a late put) *)
+Theorem C12_done_stable_sentinel_refuted : exists c s t s',
+  cfg_nocancel c = true /\ c_pinned c = false /\ Reach c s /\ done s = true /\
+  senders_idle s = true /\ no_cancel_pending s = true /\ sentinels_fit s = false /\
+  step s t = Some s' /\ done s' = false /\ q s' = [Flush].
+Proof. exact done_sentinel_refuted. Qed.
+Print Assumptions C12_done_stable_sentinel_refuted.
+
+(* (4) what ONE receiver sees ([received_by s r]: the items of the dequeue log [recv s] that went to task r):
+   an order-preserving sub-sequence of the global receive log, without repetition; what it got from sender v is an
+   order-preserving sub-sequence of what v sent, so the item numbers strictly increase *)
+Theorem C12_receiver_order : forall c s, Reach c s -> c_pinned c = false -> forall r,
+  sublist (received_by s r) (received s) /\ NoDup (received_by s r) /\
+  forall v, sublist (filter (from v) (received_by s r)) (map (Msg v) (seq 0 (nsent_of s v))) /\
+            StronglySorted lt (map msg_num (filter (from v) (received_by s r))).
+Proof. exact receiver_order. Qed.
+Print Assumptions C12_receiver_order.
+
+(* (5) exactly ONE receiver per received item, and the per-receiver logs cover the receive log *)
+Theorem C12_one_receiver : forall c s, Reach c s -> c_pinned c = false ->
+  (forall r1 r2 x, In x (received_by s r1) -> In x (received_by s r2) -> r1 = r2) /\
+  (forall x, In x (received s) <-> exists r, In x (received_by s r)).
+Proof. exact one_receiver. Qed.
+Print Assumptions C12_one_receiver.
+
+(* repaired code: no task ever ends with task_done()'s ValueError (cancellation included) ... *)
+Theorem C12_no_value_error : forall c s t o, Reach c s -> c_pinned c = false -> outcome_of s t = Some o ->
+  outcome_is_error o = false.
+Proof. exact no_value_error. Qed.
+Print Assumptions C12_no_value_error.
+
+(* ... and without cancellation a task ends by returning, with ChannelClosed or with ChannelDone, nothing else *)
+Theorem C12_outcomes_nocancel : forall c s t o, Reach c s -> c_pinned c = false -> cfg_nocancel c = true ->
+  outcome_of s t = Some o -> o = ORet \/ o = OClosed \/ o = ODone.
+Proof. exact outcomes_nocancel. Qed.
+Print Assumptions C12_outcomes_nocancel.
+
+(* "receivers that keep receiving until the channel is done": a task of the configuration that contains a receive loop /
+   an async-for over the channel and has returned has observed the end of the channel (pinned or repaired, cancellation
+   included) — this discharges the [drained] premise of C12_no_strand ... *)
+Theorem C12_loop_drains : forall c s i T, Reach c s -> loop_task c i = true -> nth_error (tasks s) i = Some T ->
+  st T = Fin ORet -> drained s = true.
+Proof. exact loop_drains. Qed.
+Print Assumptions C12_loop_drains.
+
+(* ... so the delivery clause reads in full: no cancellation, repaired code; closed, nothing can run any more, and some
+   such receiver has returned: every item whose send completed before close() has been received — the first npre entries
+   of the receive log, in send order — each by exactly one receiver *)
+Theorem C12_delivery : forall c s i T, Reach c s -> cfg_nocancel c = true -> c_pinned c = false ->
+  closed s = true -> quiescent s = true ->
+  loop_task c i = true -> nth_error (tasks s) i = Some T -> st T = Fin ORet ->
+  sent_before_close s = firstn (npre s) (received s) /\
+  forall x, In x (sent_before_close s) ->
+    exists r, In x (received_by s r) /\ forall r', In x (received_by s r') -> r' = r.
+Proof. exact delivery. Qed.
+Print Assumptions C12_delivery.
+
 (* What is NOT proved (and cannot be, see the refutation above): with cancellation, that every item sent before close()
    is received.  Modelling limits: the wait_for timer is a cancel() whose target reports TimeoutError; asyncio itself
    (event loop, Task.__step, Future callbacks) is mirrored by the transition system and tied to the real classes by the
@@ -166,3 +410,63 @@ Example C12_obs_sender_blocked :
   quiescent s = true /\ closed s = true /\ (exists T, nth_error (tasks s) 0 = Some T /\ st T = BlkPut) /\
   sent_before_close s = [Msg 0 0] /\ received s = [Msg 0 0] /\ q s = [Msg 0 1].
 Proof. exact sender_blocked_after_close. Qed.
+
+(* non-vacuity of the extension theorems *)
+Example C12_ex_capacity_flush_blocks :
+  let s := final cfg_fb [0; 1; 2; 3] in
+  Reach cfg_fb s /\ c_maxsize cfg_fb = 1 /\ q s = [Flush] /\ full s = true /\ W s = 2 /\ putters s = [3] /\
+  (exists T, nth_error (tasks s) 3 = Some T /\ st T = BlkPut /\ prog T = [IPutFlush]) /\
+  quiescent (final cfg_fb [0; 1; 2; 3; 0; 3; 1]) = true /\
+  forallb (fun T => is_fin (st T)) (tasks (final cfg_fb [0; 1; 2; 3; 0; 3; 1])) = true.
+Proof. exact ex_capacity_flush_blocks. Qed.
+Example C12_ex_close_hyp :
+  let s := final cfg_fb [0; 1] in
+  sumf (is_st BlkGet) (tasks s) = 2 /\
+  exists T, nth_error (tasks s) 2 = Some T /\ st T = Ready /\ mc T = false /\ prog T = [IClose].
+Proof. exact ex_close_hyp. Qed.
+Example C12_ex_capacity_attained :
+  let s := final cfg_obs [1; 0; 0; 1; 2; 1; 3; 2; 0] in
+  Reach cfg_obs s /\ within_capacity s = true /\ length (q s) = c_maxsize cfg_obs.
+Proof. exact ex_capacity_attained. Qed.
+Example C12_ex_bounds : bound cfg_ex = 51 /\ bound cfg_k6 = 23 /\ bound (cfg_f10 false) = 9 /\ bound cfg_obs = 30.
+Proof. exact ex_bounds. Qed.
+Example C12_ex_drive :
+  quiescent (drive pick_first (bound cfg_ex) (init cfg_ex)) = true /\
+  quiescent (drive pick_first (bound cfg_k6) (init cfg_k6)) = true /\
+  quiescent (init cfg_ex) = false /\ measure (final cfg_ex sch_ex) = 0.
+Proof. exact ex_drive. Qed.
+Example C12_ex_pick_first_fair : forall c s, Reach c s -> quiescent s = false -> step s (pick_first s) <> None.
+Proof. exact pick_first_fair. Qed.
+Example C12_ex_done_settled :
+  let s := final cfg_st [0; 1] in
+  Reach cfg_st s /\ cfg_nocancel cfg_st = true /\ cfg_atomic_send cfg_st = true /\ done_settled s = true /\ q s = [Msg 1 0] /\
+  (exists s', step s 0 = Some s' /\ done s' = true /\ q s' = []) /\ (exists s', step s 2 = Some s' /\ done s' = true).
+Proof. exact ex_done_settled. Qed.
+Example C12_ex_done_k6 : exists s t T s',
+  Reach cfg_k6 s /\ done s = true /\ nth_error (tasks s) t = Some T /\ st T = CancGet /\
+  step s t = Some s' /\ q s' = q s /\ done s' = false.
+Proof. exact done_cancel_blocked_refuted. Qed.
+Example C12_ex_receiver_logs :
+  let s := final cfg_ex sch_ex in
+  received s = [Msg 1 0; Msg 1 1; Msg 0 0; Msg 0 1; Msg 0 2] /\
+  received_by s 3 = [Msg 0 0; Msg 0 2] /\ received_by s 4 = [Msg 0 1] /\ received_by s 5 = [Msg 1 0; Msg 1 1].
+Proof. exact ex_receiver_logs. Qed.
+Example C12_ex_outcomes :
+  map (outcome_of (final cfg_ex sch_ex)) [0; 1; 2; 3; 4; 5; 6] = repeat (Some ORet) 7 /\
+  outcome_of (final (mkC 0 false [([UClose], false); ([URecv], false)]) [0; 1]) 1 = Some ODone.
+Proof. exact ex_outcomes. Qed.
+Example C12_ex_delivery :
+  let s := final cfg_ex sch_ex in
+  loop_task cfg_ex 3 = true /\ c_pinned cfg_ex = false /\ outcome_of s 3 = Some ORet /\ closed s = true /\
+  quiescent s = true /\ sent_before_close s = [Msg 1 0; Msg 1 1; Msg 0 0; Msg 0 1; Msg 0 2].
+Proof. vm_compute. repeat split; reflexivity. Qed.
+Example C12_ex_event_loop : length sch_ex = 12 /\ bound cfg_ex = 51 /\
+  (let s := final cfg_obs [1; 0; 0; 1; 2; 1; 3; 2; 0] in quiescent s = true /\ sumf (is_st BlkPut) (tasks s) = 1 /\ full s = true).
+Proof. vm_compute. repeat split; reflexivity. Qed.
+Example C12_ex_done_settled_c :
+  let s := final cfg_stc [0; 1; 2] in
+  Reach cfg_stc s /\ done_settled_c s = true /\ done_settled s = false /\ no_cancel_pending s = false /\
+  (exists T, nth_error (tasks s) 1 = Some T /\ st T = Ready /\ mc T = true) /\
+  (exists s', step s 1 = Some s' /\ outcome_of s' 1 = Some OCancelled /\ done s' = true) /\
+  (exists s', step s 0 = Some s' /\ done s' = true).
+Proof. exact ex_done_settled_c. Qed.
